@@ -574,10 +574,26 @@ namespace verif
                     lab = "missing-colon";
                     break;
                 }
-                case 7:
+                case 7: {
+                    // every other time (by the position drawn, no further choice): an obsolete line fold (RFC 7230 3.2.4) -
+                    // one of the spaces inside the header block becomes CRLF SP or CRLF HTAB, so that a header line
+                    // begins with white space
+                    std::vector<size_t> sp;
+                    size_t first = w.find("\r\n");
+                    if (pos % 2 && first != std::string::npos && m.head_len && m.head_len <= w.size())
+                        for (size_t p = first + 2; p + 4 < m.head_len; ++p)
+                            if (w[p] == ' ' && w[p - 1] != '\n')
+                                sp.push_back(p);
+                    if (!sp.empty())
+                    {
+                        w.replace(sp[(pos / 2) % sp.size()], 1, pos % 4 == 3 ? "\r\n\t" : "\r\n ");
+                        lab = "obs-fold";
+                        break;
+                    }
                     w.insert(pos, " ");
                     lab = "extra-space";
                     break;
+                }
                 case 8: { // bad version token
                     static const char* bv[] = { "HTTP/1.2", "HTTP/2.0", "HTTP/1.", "HTTP/1", "http/1.1", "HTTP/11", "HTTPS/1.1", "H" };
                     size_t q                = w.find("HTTP/1.");
